@@ -140,8 +140,9 @@ Definition change_of (st : bstate) (fee : Z) (ins outs : list value) : value :=
 Section Calc.
   (* min_lovelace_post_alonzo (TransactionOutput (change address, v)) *)
   Variable minada : value -> Z.
-  (* the packing decision: what _pack_tokens_for_change (address, change, max_val_size) returns *)
-  Variable pack : value -> list masset.
+  (* the packing decision: what _pack_tokens_for_change (address, change, max_val_size) returns;
+     None = it raises InvalidTransactionException *)
+  Variable pack : value -> option (list masset).
 
   (* the loop txbuilder.py:684-711 *)
   Fixpoint change_loop (respect : bool) (arr : list masset) (change : value) : cc_err + list value :=
@@ -167,7 +168,10 @@ Section Calc.
       if is_nil (massets ch) then
         if respect && (coin ch <? minada ch) then inl ErrInsufficient
         else inr [mkValue (coin ch) []]
-      else change_loop respect (pack ch) ch.
+      else match pack ch with
+           | None => inl ErrInvalidTx
+           | Some arr => change_loop respect arr ch
+           end.
 
   (* ---- _add_change_and_fee (txbuilder.py:715-771), change_address given ----
      an output is (does its address equal the change address, amount) *)
@@ -303,22 +307,38 @@ Section Pack.
         else pack_assets p r arr out (a_add temp [(n, q)]) old
     end.
 
-  (* outer loop; the boolean says that the final re-check fired (`break`): the current policy's pending
-     assets and every remaining policy are dropped *)
-  Fixpoint pack_policies (pols : masset) (arr : list masset) (out : value) : list masset * bool :=
+  (* outer loop.  The final re-check raises InvalidTransactionException when it fires
+     (fix commit "token change is never silently dropped when packing change outputs";
+     the earlier code restored old_amount and left the loop, dropping the pending and all remaining policies) *)
+  Fixpoint pack_policies (pols : masset) (arr : list masset) (out : value) : option (list masset) :=
     match pols with
-    | [] => (arr ++ [massets out], false)
+    | [] => Some (arr ++ [massets out])
     | (p, assets) :: r =>
         match pack_assets p assets arr out [] out with
         | (arr1, out1, temp, old) =>
             let out2 := v_add out1 (single p temp) in
-            if ovf out2 then (arr1 ++ [massets old], true)
+            if ovf out2 then None
             else pack_policies r arr1 out2
         end
     end.
-  Definition pack_model (change : value) : list masset * bool :=
+  Definition pack_model (change : value) : option (list masset) :=
     pack_policies (massets change) [] (mkValue (coin change) []).
+
+  (* the code before that fix, kept to state what was wrong with it (C06_pack_break_refuted) *)
+  Fixpoint pack_policies_old (pols : masset) (arr : list masset) (out : value) : list masset :=
+    match pols with
+    | [] => arr ++ [massets out]
+    | (p, assets) :: r =>
+        match pack_assets p assets arr out [] out with
+        | (arr1, out1, temp, old) =>
+            let out2 := v_add out1 (single p temp) in
+            if ovf out2 then arr1 ++ [massets old]
+            else pack_policies_old r arr1 out2
+        end
+    end.
+  Definition pack_model_old (change : value) : list masset :=
+    pack_policies_old (massets change) [] (mkValue (coin change) []).
 End Pack.
 
-Definition pack_c (cpb : Z) (addr : bytes) (mvs : Z) (change : value) : list masset :=
-  fst (pack_model (ovf_c cpb addr mvs) change).
+Definition pack_c (cpb : Z) (addr : bytes) (mvs : Z) (change : value) : option (list masset) :=
+  pack_model (ovf_c cpb addr mvs) change.
